@@ -229,6 +229,10 @@ def confirm_structure(vio, pid):
                 good, info = check(r)
                 res[profile]['native'] = info
                 ok.append(good)
+            elif key == 'malformed':
+                out = r['emits'][-1]
+                res[profile]['native_validity'] = {'valid': out['valid'], 'error': out.get('validation_error')}
+                ok.append(not out['valid'])
             elif key.startswith('body.'):
                 mm, info = native_bodies_mismatch(r, vio.get('emit_index', 0))
                 res[profile]['native_body'] = info[:4]
